@@ -443,6 +443,21 @@ theorem cacheable_header_read_misses_data_pack :
       HotCold.readPartial s FileType.pack id (headerReadCacheable .data) 0 1 = .ok [7] := by
   refine ⟨{ hot := fun _ => none, cold := SpecMap.write (fun _ => none) (FileType.pack, ['a']) [7] }, ['a'], ?_, ?_, ?_⟩ <;> decide
 
+/-- the in-memory rebuild (`Repository::to_indexed_checked` = `index_checked_from_collector`, model `checkedPacks`): whenever it
+succeeds, it indexes exactly the unmarked listings of the index files `repair_index` would write (same packs, blobs, order) — for
+every store, every damaged set of index files, every header-read function; so `index_rebuildable` describes it as well. -/
+theorem checked_index_eq_repaired_index (readHeader : Nat → Option Nat → Nat → Option (List IndexBlob)) (store : List (Nat × Nat))
+    (files : List Rustic.Index.IndexFile) (ps : List Rustic.Index.IndexPack)
+    (h : Rustic.Index.checkedPacks readHeader store files = some ps) :
+    ps = Rustic.Index.unmarked (Rustic.Index.repairIndex readHeader store files false) :=
+  Rustic.Index.checkedPacks_eq_repaired readHeader store files ps h
+
+/-- non-vacuity: one listed pack, one unlisted readable pack → both indexed; an unreadable unlisted pack fails the load. -/
+example : (Rustic.Index.checkedPacks (fun _ _ _ => some []) [(1, 36), (2, 36)]
+      [{ packs := [{ id := 1, blobs := [], size := none }], packsToDelete := [] }]).map (·.map (·.id)) = some [1, 2] ∧
+    (Rustic.Index.checkedPacks (fun _ _ _ => none) [(1, 36), (2, 36)]
+      [{ packs := [{ id := 1, blobs := [], size := none }], packsToDelete := [] }]).isNone = true := by decide
+
 /-- (C08-7) a dry run of `repair_index` changes nothing: the index files afterwards are the index files before, for every
 store, every set of index files (damaged or not), every header-read outcome and `read_all` on or off. -/
 theorem dry_run_changes_nothing (readHeader : Nat → Option Nat → Nat → Option (List IndexBlob)) (store : List (Nat × Nat))
